@@ -64,6 +64,8 @@ def library_crash(exc):
     marker = os.sep + 'plinio' + os.sep
     if marker not in inner.filename or os.sep + 'vf' + os.sep in inner.filename:
         return None
+    if (inner.line or '').strip().startswith('raise'):
+        return None         # an explicit `raise` is a deliberate refusal, whatever its type
     return {'sig': type(exc).__name__ + ':' + os.path.basename(inner.filename) + ':' + inner.name,
             'exc': repr(exc)[:300], 'where': f'{inner.filename}:{inner.lineno}'}
 
